@@ -12,301 +12,24 @@
    * RTI pops PC and PSR, restores R6 (swapping back to the user stack when the popped PSR is a user PSR), pops a
      frame — `rti_spec`; and RTI right after an entry restores PC, PSR, R6 and the saved SP exactly —
      `rti_undoes_entry` (the two stack words below the old stack pointer are the only memory difference).
-  Transparency of whole runs for handlers that restore what they use follows by induction from `rti_undoes_entry`
-  plus C09 (user-mode code never reads below x3000); that composition is checked by the correspondence oracle
-  (interrupted vs uninterrupted runs), not yet a single theorem.
+   * transparency (session 5, `Rt.interrupt_transparent`, Lemmas/IntTransparent): an interrupt taken at an
+     instruction boundary whose handler — any code — leaves R6's value, every other register, the control state and
+     memory as it found them and ends in RTI returns to the interrupted instruction with PC, PSR (CC, privilege,
+     priority), every register, both stack pointers, flags and all memory below the I/O page except the two
+     supervisor-stack cells (and the cells the handler is allowed to use) unchanged; nothing was fetched in between
+     (`taken_is_entry`), so the interrupted program continues as if uninterrupted.
+  The induction over a whole run with several interrupts, and the statement that an uninterrupted and an interrupted
+  run produce the same output, are checked by the correspondence oracle (interrupted vs uninterrupted runs); the
+  per-interrupt theorem above is what each induction step needs (plus C09: user code never reads below x3000).
+  The theorems themselves are in Lemmas/C10Core.lean (moved so that later modules can import them).
 -/
-import Lc3V.Props.C08
-import Lc3V.Lemmas.Psr
+import Lc3V.Lemmas.C10Core
+import Lc3V.Lemmas.IntTransparent
 namespace Lc3V.C10
-open Lc3V Sim SimM
-
-/-- a step takes the interrupt (v,p) iff the poll's winner is vectored (v,p) with p above the PSR priority -/
-theorem gate (s : Sim) (v : BitVec 8) (p : Nat) :
-    takenInterrupt s = some (v, p) ↔ ((s.dev.pollInterrupt).1 = some (.vectored v p) ∧ p > PSR.priority s.psr) := by
-  unfold takenInterrupt
-  cases h : (s.dev.pollInterrupt).1 with
-  | none => simp
-  | some i =>
-    cases i with
-    | external t => simp
-    | vectored v' p' =>
-      by_cases hg : p' > PSR.priority s.psr
-      · simp only [hg, if_true, Option.some.injEq, Prod.mk.injEq, Interrupt.vectored.injEq]
-        constructor
-        · rintro ⟨rfl, rfl⟩; exact ⟨⟨rfl, rfl⟩, hg⟩
-        · rintro ⟨⟨rfl, rfl⟩, _⟩; exact ⟨rfl, rfl⟩
-      · simp only [hg, if_false, Interrupt.vectored.injEq]
-        constructor
-        · intro h'; cases h'
-        · rintro ⟨⟨rfl, rfl⟩, hp⟩; exact absurd hp hg
-
-/-- when an interrupt is taken nothing is fetched: the step is exactly the supervisor entry at vector x100+v -/
-theorem taken_is_entry (s : Sim) (v : BitVec 8) (p : Nat) (h : takenInterrupt s = some (v, p)) (he : externalInterrupt s = none) :
-    stepInner s = handleInterrupt (0x100 + v.setWidth 16) (some p) (afterPoll s) := by
-  rw [C08.step_structure, he, h]
-
-/-- key of `max_by_key` is monotone along the fold: the running best is at least as urgent as anything seen -/
-theorem pollStep_best (acc : Option Interrupt × Array Device) (d : Device) :
-    (∀ b, acc.1 = some b → ∃ b', (DevHandler.pollStep acc d).1 = some b' ∧ DevHandler.intKey b ≤ DevHandler.intKey b') ∧
-    (∀ x, (d.poll).1 = some x → ∃ b', (DevHandler.pollStep acc d).1 = some b' ∧ DevHandler.intKey x ≤ DevHandler.intKey b') := by
-  unfold DevHandler.pollStep
-  constructor
-  · intro b hb
-    cases hx : (d.poll).1 with
-    | none => simp only [hb, hx]; exact ⟨b, rfl, Nat.le_refl _⟩
-    | some x =>
-      simp only [hb, hx]
-      by_cases hk : DevHandler.intKey x ≥ DevHandler.intKey b
-      · exact ⟨x, by simp [hk], hk⟩
-      · exact ⟨b, by simp [hk], Nat.le_refl _⟩
-  · intro x hx
-    cases hb : acc.1 with
-    | none => simp only [hx, hb]; exact ⟨x, rfl, Nat.le_refl _⟩
-    | some b =>
-      simp only [hx, hb]
-      by_cases hk : DevHandler.intKey x ≥ DevHandler.intKey b
-      · exact ⟨x, by simp [hk], Nat.le_refl _⟩
-      · exact ⟨b, by simp [hk], by omega⟩
-
-/-- arbitration: the winner of a poll is at least as urgent as every request raised by any device in that poll -/
-theorem arbitration (devs : List Device) (acc : Option Interrupt × Array Device) :
-    (∀ b, acc.1 = some b → ∃ w, (devs.foldl DevHandler.pollStep acc).1 = some w ∧ DevHandler.intKey b ≤ DevHandler.intKey w) ∧
-    (∀ d ∈ devs, ∀ x, (d.poll).1 = some x →
-      ∃ w, (devs.foldl DevHandler.pollStep acc).1 = some w ∧ DevHandler.intKey x ≤ DevHandler.intKey w) := by
-  induction devs generalizing acc with
-  | nil => exact ⟨fun b hb => ⟨b, hb, Nat.le_refl _⟩, fun d hd => by simp at hd⟩
-  | cons d rest ih =>
-    simp only [List.foldl_cons]
-    obtain ⟨ih1, ih2⟩ := ih (DevHandler.pollStep acc d)
-    obtain ⟨p1, p2⟩ := pollStep_best acc d
-    constructor
-    · intro b hb
-      obtain ⟨b', hb', hle⟩ := p1 b hb
-      obtain ⟨w, hw, hle2⟩ := ih1 b' hb'
-      exact ⟨w, hw, by omega⟩
-    · intro d' hd' x hx
-      rcases List.mem_cons.mp hd' with rfl | hmem
-      · obtain ⟨b', hb', hle⟩ := p2 x hx
-        obtain ⟨w, hw, hle2⟩ := ih1 b' hb'
-        exact ⟨w, hw, by omega⟩
-      · exact ih2 d' hmem x hx
-
-/-- vectored priorities are 0..7; external requests have key 8, above every vectored one -/
-theorem key_order (v : BitVec 8) (p t : Nat) :
-    DevHandler.intKey (.vectored v p) = p % 8 ∧ DevHandler.intKey (.external t) = 8 := ⟨rfl, rfl⟩
-
-/-- core of an entry from a state whose R6 already is the supervisor stack pointer -/
-theorem enterCore_spec (x : Sim) (vect : W) (prio : Option Nat) (oldPsr oldPc : W) (hs : x.flags.strict = false)
-    (h1 : ((x.reg R6).data - 1).toNat < IO_START) (h2 : ((x.reg R6).data - 2).toNat < IO_START) (hv : vect.toNat < IO_START) :
-    ∃ s', enterCore vect prio oldPsr oldPc x = (.ok (), s') ∧
-      s'.memAt ((x.reg R6).data - 2) = Word.ofData oldPc ∧
-      ((x.reg R6).data - 1 ≠ (x.reg R6).data - 2 → s'.memAt ((x.reg R6).data - 1) = Word.ofData oldPsr) ∧
-      (∀ a, a ≠ (x.reg R6).data - 1 → a ≠ (x.reg R6).data - 2 → s'.memAt a = x.memAt a) ∧
-      s'.reg R6 = Word.sub (x.reg R6) (Word.ofData 2) ∧
-      (∀ r, r ≠ R6 → s'.reg r = x.reg r) ∧
-      s'.psr = PSR.entryPsr x.psr prio ∧
-      s'.pc = (s'.memAt vect).data ∧ s'.savedSp = x.savedSp ∧ s'.frameNo = x.frameNo + 1 ∧
-      s'.dev = x.dev ∧ s'.flags = x.flags ∧ s'.instrRun = x.instrRun ∧ s'.mcr = x.mcr := by
-  unfold enterCore
-  simp only [SimM.bind_apply, SimM.getS_apply, SimM.modifyS_apply, hs, Word.getIfInit_nonstrict, SimM.liftE_ok]
-  rw [Sim.writeMem_plain_eq _ _ _ _ (Or.inl (by simp [defaultCtx])) h1 (by simp [defaultCtx, hs]) (by simp [defaultCtx])]
-  simp only
-  rw [Sim.writeMem_plain_eq _ _ _ _ (Or.inl (by simp [defaultCtx])) h2 (by simp [defaultCtx, hs]) (by simp [defaultCtx])]
-  have hne2 : ∀ a : W, a ≠ (x.reg R6).data - 2 → ¬ ((x.reg R6).data - 2).toNat = a.toNat :=
-    fun a h e => h (BitVec.eq_of_toNat_eq e).symm
-  have hne1 : ∀ a : W, a ≠ (x.reg R6).data - 1 → ¬ ((x.reg R6).data - 1).toNat = a.toNat :=
-    fun a h e => h (BitVec.eq_of_toNat_eq e).symm
-  have hr : ∀ r : Reg, r ≠ R6 → ¬ R6.toNat = r.toNat := fun r h e => h (BitVec.eq_of_toNat_eq e).symm
-  cases prio with
-  | none =>
-    simp only [SimM.pure_apply]
-    rw [Sim.callInterrupt_plain _ _ _ (by simp [hs]) (by simp) hv]
-    refine ⟨_, rfl, ?_, ?_, ?_, ?_, ?_, rfl, ?_, rfl, rfl, rfl, rfl, rfl, rfl⟩
-    · dsimp only [Sim.memAt, pushFrame, afterVectorRead]
-      rw [Vector.getElem_set_self]
-    · intro hne
-      dsimp only [Sim.memAt, pushFrame, afterVectorRead]
-      rw [Vector.getElem_set_ne _ _ (hne2 _ hne), Vector.getElem_set_self]
-    · intro a ha1 ha2
-      dsimp only [Sim.memAt, pushFrame, afterVectorRead]
-      rw [Vector.getElem_set_ne _ _ (hne2 _ ha2), Vector.getElem_set_ne _ _ (hne1 _ ha1)]
-    · dsimp only [Sim.reg, pushFrame, afterVectorRead]
-      rw [Vector.getElem_set_self]
-    · intro r hr'
-      dsimp only [Sim.reg, pushFrame, afterVectorRead]
-      rw [Vector.getElem_set_ne _ _ (hr r hr')]
-    · rfl
-  | some p =>
-    simp only [SimM.bind_apply, SimM.modifyS_apply]
-    rw [Sim.callInterrupt_plain _ _ _ (by simp [hs]) (by simp) hv]
-    refine ⟨_, rfl, ?_, ?_, ?_, ?_, ?_, rfl, ?_, rfl, rfl, rfl, rfl, rfl, rfl⟩
-    · dsimp only [Sim.memAt, pushFrame, afterVectorRead]
-      rw [Vector.getElem_set_self]
-    · intro hne
-      dsimp only [Sim.memAt, pushFrame, afterVectorRead]
-      rw [Vector.getElem_set_ne _ _ (hne2 _ hne), Vector.getElem_set_self]
-    · intro a ha1 ha2
-      dsimp only [Sim.memAt, pushFrame, afterVectorRead]
-      rw [Vector.getElem_set_ne _ _ (hne2 _ ha2), Vector.getElem_set_ne _ _ (hne1 _ ha1)]
-    · dsimp only [Sim.reg, pushFrame, afterVectorRead]
-      rw [Vector.getElem_set_self]
-    · intro r hr'
-      dsimp only [Sim.reg, pushFrame, afterVectorRead]
-      rw [Vector.getElem_set_ne _ _ (hr r hr')]
-    · rfl
-
-/-- supervisor stack pointer used by an entry from state s -/
-def entrySp (s : Sim) : W := if PSR.privileged s.psr then (s.reg R6).data else s.savedSp.data
-
-theorem sp_cells_distinct (sp : W) : sp - 1 ≠ sp - 2 := by
-  intro h
-  bv_omega
-
-/-- **entry** (trap, exception under real traps, or interrupt) from any state, stack and vector in plain memory -/
-theorem entry (s : Sim) (vect : W) (prio : Option Nat) (hs : s.flags.strict = false)
-    (h1 : (entrySp s - 1).toNat < IO_START) (h2 : (entrySp s - 2).toNat < IO_START) (hv : vect.toNat < IO_START) :
-    ∃ s', enterSupervisor vect prio s = (.ok (), s') ∧
-      s'.memAt (entrySp s - 2) = Word.ofData s.pc ∧ s'.memAt (entrySp s - 1) = Word.ofData s.psr ∧
-      (∀ a, a ≠ entrySp s - 1 → a ≠ entrySp s - 2 → s'.memAt a = s.memAt a) ∧
-      (s'.reg R6).data = entrySp s - 2 ∧ (∀ r, r ≠ R6 → s'.reg r = s.reg r) ∧
-      PSR.privileged s'.psr = true ∧ PSR.cc s'.psr = 2 ∧
-      (∀ p, prio = some p → PSR.priority s'.psr = p % 8) ∧
-      (prio = none → PSR.priority s'.psr = PSR.priority s.psr) ∧
-      s'.pc = (s'.memAt vect).data ∧
-      s'.savedSp = (if PSR.privileged s.psr then s.savedSp else s.reg R6) ∧
-      s'.frameNo = s.frameNo + 1 ∧ s'.dev = s.dev ∧ s'.flags = s.flags ∧ s'.instrRun = s.instrRun := by
-  unfold enterSupervisor
-  have hsub : ∀ w : Word, (Word.sub w (Word.ofData 2)).data = w.data - 2 := by
-    intro w; unfold Word.sub; split
-    · rename_i h; simp only [Bool.and_eq_true, beq_iff_eq] at h; have := h.1; simp [Word.ofData] at this
-    · rfl
-  cases hpv : PSR.privileged s.psr
-  · -- from user mode: stacks swapped first
-    have hsp : entrySp s = s.savedSp.data := by simp [entrySp, hpv]
-    have hx6 : (s.swapStacks.reg R6) = s.savedSp := by
-      dsimp only [swapStacks, Sim.reg]; rw [Vector.getElem_set_self]
-    rw [hsp] at h1 h2 ⊢
-    simp only [Bool.not_false, if_true]
-    obtain ⟨s', he, m2, m1, mo, r6, ro, hp', hpc, hss, hfn, hd, hf, hir, _⟩ :=
-      enterCore_spec s.swapStacks vect prio s.psr s.pc hs (by rw [hx6]; exact h1) (by rw [hx6]; exact h2) hv
-    rw [hx6] at m2 m1 mo r6
-    obtain ⟨q1, q2, q3, q4⟩ := PSR.entryPsr_facts s.psr prio
-    have hp'' : s'.psr = PSR.entryPsr s.psr prio := hp'
-    refine ⟨s', he, m2, m1 (sp_cells_distinct _), mo, ?_, ?_, ?_, ?_, ?_, ?_, hpc, ?_, hfn, hd, hf, hir⟩
-    · rw [r6, hsub]
-    · intro r hr
-      rw [ro r hr]
-      have : ¬ R6.toNat = r.toNat := fun e => hr (BitVec.eq_of_toNat_eq e).symm
-      dsimp only [swapStacks, Sim.reg]; rw [Vector.getElem_set_ne _ _ this]
-    · rw [hp'']; exact q1
-    · rw [hp'']; exact q2
-    · rw [hp'']; exact q3
-    · rw [hp'']; exact q4
-    · rw [hss]; rfl
-  · have hsp : entrySp s = (s.reg R6).data := by simp [entrySp, hpv]
-    rw [hsp] at h1 h2 ⊢
-    simp only [Bool.not_true, Bool.false_eq_true, if_false, if_true]
-    obtain ⟨s', he, m2, m1, mo, r6, ro, hp', hpc, hss, hfn, hd, hf, hir, _⟩ :=
-      enterCore_spec s vect prio s.psr s.pc hs h1 h2 hv
-    obtain ⟨q1, q2, q3, q4⟩ := PSR.entryPsr_facts s.psr prio
-    refine ⟨s', he, m2, m1 (sp_cells_distinct _), mo, ?_, ro, ?_, ?_, ?_, ?_, hpc, hss, hfn, hd, hf, hir⟩
-    · rw [r6, hsub]
-    · rw [hp']; exact q1
-    · rw [hp']; exact q2
-    · rw [hp']; exact q3
-    · rw [hp']; exact q4
-
-/-- RTI in supervisor mode (or with privilege checks ignored), stack in plain memory, non-strict -/
-theorem rti_spec (x : Sim) (hs : x.flags.strict = false) (hp : PSR.privileged x.psr = true ∨ x.flags.ignorePriv = true)
-    (h1 : ((x.reg R6).data).toNat < IO_START) (h2 : ((x.reg R6).data + 1).toNat < IO_START) :
-    ∃ s', execInstr .rti x = (.ok (), s') ∧
-      s'.pc = (x.memAt (x.reg R6).data).data ∧ s'.psr = (x.memAt ((x.reg R6).data + 1)).data ∧
-      s'.mem = x.mem ∧ s'.frameNo = x.frameNo - 1 ∧
-      (PSR.privileged (x.memAt ((x.reg R6).data + 1)).data = true →
-         s'.reg R6 = Word.add (x.reg R6) (Word.ofData 2) ∧ s'.savedSp = x.savedSp) ∧
-      (PSR.privileged (x.memAt ((x.reg R6).data + 1)).data = false →
-         s'.reg R6 = x.savedSp ∧ s'.savedSp = Word.add (x.reg R6) (Word.ofData 2)) ∧
-      (∀ r, r ≠ R6 → s'.reg r = x.reg r) ∧ s'.dev = x.dev ∧ s'.flags = x.flags := by
-  have hpe : (PSR.privileged x.psr || x.flags.ignorePriv) = true := by rcases hp with h | h <;> simp [h]
-  have hc1 : x.defaultCtx.privileged = true ∨ inUser (x.reg R6).data = true := by
-    rcases hp with h | h
-    · left; simp [defaultCtx, h]
-    · left; simp [defaultCtx, h]
-  unfold execInstr
-  simp only [SimM.bind_apply, SimM.getS_apply, hpe, if_true, hs, Word.getIfInit_nonstrict, SimM.liftE_ok]
-  rw [Sim.readMem_plain_eq _ _ _ hc1 h1 (by simp [defaultCtx])]
-  simp only [Word.getIfInit_nonstrict, SimM.liftE_ok]
-  rw [Sim.readMem_plain_eq _ _ _ (Or.inl (by rcases hp with h | h <;> simp [defaultCtx, h])) h2 (by simp [defaultCtx])]
-  simp only [Word.getIfInit_nonstrict, SimM.liftE_ok, SimM.modifyS_apply]
-  rw [Sim.setPc_nonstrict _ _ _ (by simp [hs])]
-  simp only [SimM.modifyS_apply, SimM.getS_apply, Word.ofData_data]
-  have hr : ∀ r : Reg, r ≠ R6 → ¬ R6.toNat = r.toNat := fun r h e => h (BitVec.eq_of_toNat_eq e).symm
-  cases hq : PSR.privileged (x.memAt ((x.reg R6).data + 1)).data
-  · simp only [hq, Bool.not_false, if_true, SimM.bind_apply, SimM.modifyS_apply]
-    refine ⟨_, rfl, rfl, rfl, rfl, rfl, ?_, ?_, ?_, rfl, rfl⟩
-    · intro h; cases h
-    · intro _
-      constructor
-      · dsimp only [Sim.reg, popFrame]; rw [Vector.getElem_set_self]
-      · dsimp only [Sim.reg, popFrame]; rw [Vector.getElem_set_self]
-    · intro r hr'
-      dsimp only [Sim.reg, popFrame]
-      rw [Vector.getElem_set_ne _ _ (hr r hr'), Vector.getElem_set_ne _ _ (hr r hr')]
-  · simp only [hq, Bool.not_true, Bool.false_eq_true, if_false, SimM.pure_apply, SimM.bind_apply, SimM.modifyS_apply]
-    refine ⟨_, rfl, rfl, rfl, rfl, rfl, ?_, ?_, ?_, rfl, rfl⟩
-    · intro _
-      constructor
-      · dsimp only [Sim.reg, popFrame]; rw [Vector.getElem_set_self]
-      · rfl
-    · intro h; cases h
-    · intro r hr'
-      dsimp only [Sim.reg, popFrame]
-      rw [Vector.getElem_set_ne _ _ (hr r hr')]
-
-/-- RTI executed in the state an entry produced restores PC, PSR, the stack pointer and the saved stack pointer of the
-    interrupted context, every other register, the frame depth, and all memory except the two words the entry
-    pushed below the supervisor stack pointer. -/
-theorem rti_undoes_entry (s : Sim) (vect : W) (prio : Option Nat) (hs : s.flags.strict = false)
-    (h1 : (entrySp s - 1).toNat < IO_START) (h2 : (entrySp s - 2).toNat < IO_START) (hv : vect.toNat < IO_START)
-    (s1 : Sim) (he : enterSupervisor vect prio s = (.ok (), s1)) :
-    ∃ s2, execInstr .rti s1 = (.ok (), s2) ∧ s2.pc = s.pc ∧ s2.psr = s.psr ∧
-      (s2.reg R6).data = (s.reg R6).data ∧ s2.savedSp.data = s.savedSp.data ∧
-      (∀ r, r ≠ R6 → s2.reg r = s.reg r) ∧ s2.frameNo = s.frameNo ∧
-      (∀ a, a ≠ entrySp s - 1 → a ≠ entrySp s - 2 → s2.memAt a = s.memAt a) ∧ s2.dev = s.dev := by
-  obtain ⟨s1', he', m2, m1, mo, r6, ro, hpv, _, _, _, _, hss, hfn, hd, hf, _⟩ := entry s vect prio hs h1 h2 hv
-  rw [he] at he'
-  have : s1' = s1 := by cases he'; rfl
-  subst this
-  have e1 : (s1'.reg R6).data + 1 = entrySp s - 1 := by rw [r6]; bv_omega
-  obtain ⟨s2, hx, hpc, hpsr, hmem, hfn2, hk, hu, hro, hd2, _⟩ :=
-    rti_spec s1' (by rw [hf]; exact hs) (Or.inl hpv) (by rw [r6]; exact h2) (by rw [e1]; exact h1)
-  rw [r6] at hpc
-  rw [e1] at hpsr hk hu
-  rw [m2] at hpc
-  rw [m1] at hpsr hk hu
-  simp only [Word.ofData_data] at hpc hpsr hk hu
-  refine ⟨s2, hx, hpc, hpsr, ?_, ?_, ?_, ?_, ?_, ?_⟩
-  · cases hp : PSR.privileged s.psr
-    · rw [(hu hp).1, hss]; simp [hp]
-    · rw [(hk hp).1, C08.add_data, r6]
-      have : entrySp s = (s.reg R6).data := by simp [entrySp, hp]
-      rw [this]; simp only [Word.ofData_data]; bv_omega
-  · cases hp : PSR.privileged s.psr
-    · rw [(hu hp).2, C08.add_data, r6]
-      have : entrySp s = s.savedSp.data := by simp [entrySp, hp]
-      rw [this]; simp only [Word.ofData_data]; bv_omega
-    · rw [(hk hp).2, hss]; simp [hp]
-  · intro r hr; rw [hro r hr, ro r hr]
-  · rw [hfn2, hfn]; omega
-  · intro a ha1 ha2; rw [Sim.memAt, hmem]; exact mo a ha1 ha2
-  · rw [hd2, hd]
-
--- non-vacuity: the reset configuration (user mode, saved SP = x3000) meets the stack hypotheses
-example : ((0x3000 : W) - 1).toNat < IO_START ∧ ((0x3000 : W) - 2).toNat < IO_START := by decide
+open Lc3V
 
 def obligations : List Lean.Name :=
   [``gate, ``taken_is_entry, ``pollStep_best, ``arbitration, ``key_order, ``enterCore_spec, ``sp_cells_distinct,
-   ``entry, ``rti_spec, ``rti_undoes_entry]
+   ``entry, ``rti_spec, ``rti_undoes_entry, ``Rt.handler_returns, ``Rt.interrupt_transparent]
 
 end Lc3V.C10
